@@ -28,6 +28,7 @@ parse_topics / parse_names / parse_options
 Inputs are deep-copied before every call because several normalisers write into the lists they are given.
 """
 
+import importlib
 import itertools
 import json
 import os
@@ -1302,6 +1303,70 @@ def run_classes(rep):
 # entry points
 # ======================================================================================================================
 
+# --- item-wise independence of comma lists --------------------------------------------------------------------------------
+
+def itemwise_cases(tier):
+    """(class name, field, base config, items): a comma list is the list of its items - item i of N(list) must be what the
+    same item normalises to when it stands alone."""
+
+    quick  = tier == 'quick'
+    xforms = UTIL_XFORMS if not quick else [UTIL_XFORMS[i] for i in (0, 3, 8, 9, 11, 13, 14, 15, 16)]
+    elems  = [t + top for t, _ in xforms for top in UTIL_TOPICS + [';cam2', ';a;b']]
+
+    return [('Util', 'xforms', {'id': 'u', 'sources': 'tcp://localhost:5550'}, elems)]
+
+
+def check_itemwise(name, field, base, items, lst):
+    mod, _ = CLASSES[name]
+    cls    = getattr(importlib.import_module(mod), name)
+    one    = lambda xs, as_text: plain(cls.normalize_config({**clone(base), field: ', '.join(xs) if as_text else list(xs)}))[field]
+
+    try:
+        alone = [one([x], False)[0] for x in lst]
+    except Exception as exc:
+        return None       # an item the class refuses on its own is not a valid configuration
+
+    for as_text in (False, True):
+        try:
+            got = one(lst, as_text)
+        except Exception as exc:
+            return (f'C11/{name}/itemwise/raises-{type(exc).__name__}', f'{name} {field}={lst!r} ({"text" if as_text else "list"}) raises {exc!r} although every item is accepted alone')
+
+        if got != alone:
+            k = next((i for i, (a, b) in enumerate(zip(got, alone)) if a != b), min(len(got), len(alone)))
+
+            return (f'C11/{name}/itemwise/{field}', f'{name} {field}={lst!r} ({"comma text" if as_text else "list"}): item {k} normalises to '
+                    f'{got[k] if k < len(got) else None!r} in the list but to {alone[k] if k < len(alone) else None!r} alone')
+
+    return None
+
+
+def run_itemwise(rep):
+    n = 0
+
+    for name, field, base, items in itemwise_cases(rep.tier):
+        lists = [[a, b] for a in items for b in items]
+
+        if rep.tier != 'quick':
+            few    = items[::5]
+            lists += [[a, b, c] for a in few for b in few for c in few]
+
+        seen = set()
+
+        for lst in lists:
+            n += 1
+
+            if (res := check_itemwise(name, field, base, items, lst)) is not None and res[0] not in seen:
+                seen.add(res[0])
+                rep.violation(res[0], res[1], {'kind': 'e3', 'case': {'part': 'itemwise', 'name': name, 'field': field, 'base': base, 'list': lst}})
+
+        rep.part(f'itemwise.{name}.{field}', items=len(items), lists=len(lists))
+
+    rep.add('evaluations', n)
+
+    return 0
+
+
 def run(rep):
     rep.set('rule', 'parse parts: a case = (x, spelling, white space, address prefix), distinct = distinct x; class parts: '
             'a case = one configuration meaning written in every documented-equivalent form (comma text, list of '
@@ -1339,6 +1404,11 @@ def run(rep):
     if not rep.only or 'parse' not in rep.only:
         nd += run_classes(rep)
 
+    if not rep.only or 'itemwise' in rep.only:
+        rep.assumption('item-wise part: a comma list (or list of strings) is the list of its items - each item of the normalised list must '
+                       'equal what the same item normalises to when it is the only one (Util xforms: all ordered pairs, thorough: triples)')
+        run_itemwise(rep)
+
     rep.set('distinct_nontrivial', nd)
     rep.set('exhaustive', True)
 
@@ -1346,6 +1416,12 @@ def run(rep):
 def replay(rec) -> bool:
     case = rec['case']
     part = case['part']
+
+    if part == 'itemwise':
+        res = check_itemwise(case['name'], case['field'], case['base'], None, case['list'])
+        print(f'{res[0]}: {res[1]}' if res else 'item-wise case passes on this tree')
+
+        return bool(res) and res[0] == rec.get('signature', res[0])
 
     if part.startswith('parse_'):
         kind   = part[6:]
